@@ -349,6 +349,35 @@ impl HWorld {
                 g.clear();
                 res_ok(Val::nil())
             }
+            "setlist" => {
+                let li = op["li"].as_u64().unwrap() as usize;
+                let m: MatcherSpec = serde_json::from_value(op["m"].clone()).unwrap();
+                let list = scheme.get_list(&self.specs[sid - 1].lists[li - 1].to_engine()).unwrap();
+                let lm = g.get_list_matcher_mut(list);
+                match lm.as_any_mut().downcast_mut::<SetMatcher>() {
+                    Some(sm) => {
+                        sm.sets = m.sets;
+                        res_ok(Val::nil())
+                    }
+                    None => res_err("not-a-set-matcher"),
+                }
+            }
+            "exec" => {
+                let ts: Vec<Tok> = serde_json::from_value(op["ts"].clone()).unwrap();
+                let src = render(&ts);
+                match catch_unwind(AssertUnwindSafe(|| scheme.parse(&src).map_err(|_| ()))) {
+                    Err(_) => res_err("panic"),
+                    Ok(Err(_)) => res_err("ParseError"),
+                    Ok(Ok(ast)) => {
+                        let f = ast.compile_with_compiler(&mut wirefilter::DefaultCompiler::<u8>::default());
+                        match catch_unwind(AssertUnwindSafe(|| f.execute(&**g))) {
+                            Ok(Ok(b)) => res_ok(Val::Bool { v: b }),
+                            Ok(Err(_)) => res_err("SchemeMismatch"),
+                            Err(_) => res_err("panic"),
+                        }
+                    }
+                }
+            }
             _ => res_err("unsupported-in-borrow"),
         }
     }
